@@ -447,8 +447,12 @@ def run(ctx):
     banner = tuple(((100.0 * i, 5.0 + (i % 2)), (100.0 * i + 30, 2.0 + (i % 3) * 3)) for i in range(11))
     square = tuple((((i * 37) % 100 * 1.0, (i * 11) % 100 * 1.0), ((i * 13) % 100 * 1.0, (i * 29) % 100 * 1.0))
                    for i in range(12))
+    harvested = set()
+    for const in core.harvest_ints(_lib(), low=8, high=450):
+        harvested |= {const - 1, const, const + 1, const + 4}
     for layout in (banner, square):
-        for bins in (100, 256, 257, 320, 324, 400) + ((640,) if ctx.thorough else ()):
+        for bins in sorted(set((100, 256, 257, 320, 324, 400) + ((640,) if ctx.thorough else ()))
+                           | harvested):
             for reverse in (False, True):
                 big_jobs.append((layout, bins, reverse, "stride", True))
     part.merge(core.fan_out(ctx, _big_job, big_jobs))
